@@ -829,7 +829,7 @@ fn first_diff(a: &str, b: &str) -> String {
 // ---------------------------------------------------------------------------------------------
 // generator
 
-const SEGS: &[&str] = &["1", "22", "a", "zz9", "p", "r", "n", "g", "x.y", "-"];
+const SEGS: &[&str] = &["1", "22", "a", "zz9", "p", "r", "n", "g", "x.y", "-", "%61", "a%2Fb", "%7Ez%2b", "%%41"];
 
 fn gen_uri(rng: &mut Rng) -> String {
     let s = |rng: &mut Rng| rng.pick(SEGS).to_string();
